@@ -22,7 +22,7 @@ HOOKS = ['LogSolution', 'LogSolutionAfterIteration']
 
 def plan(tier):
     if tier == 'thorough':
-        return {'n': 200000, 'chunk': 200, 'timeout': 300, 'selftest': 40, 'budget_s': 7200, 'minimize_s': 300}
+        return {'n': 200000, 'chunk': 200, 'timeout': 300, 'selftest': 40, 'budget_s': 3000, 'minimize_s': 300}
     return {'n': 3000, 'chunk': 60, 'timeout': 300, 'selftest': 10, 'budget_s': 900, 'minimize_s': 120}
 
 
